@@ -16,7 +16,8 @@ TRUSTED_BASE = [
 ASSUMPTIONS = [
     "Tier F: iterates and product counts are compared only on inputs on which the Arnoldi/normal-equations recurrence is numerically stable (binary64 vs extended precision of a reference recurrence agree to 1e-12, same number of steps, clip/stopping/padding decisions with margin > 1e-5); the others are counted as skipped_unstable or near_tie and go through the oracle only",
     "operators enter the model as dense matrices; use_householder / use_triangular / preconditioned variants of gmres are outside the property's anchors and not modelled",
-    "minimal-residual clauses allow a slack of (1e-6 + 30*tol*kappa)*||r0||: tol is the accuracy the caller asks of the Arnoldi process",
+    "minimal-residual clauses allow (1e-6 + 1e-13*kappa^2)*||r0|| (rounding of the normal equations) plus the binary64 accuracy floor 200*eps*(||A|| ||x|| + ||b||); "
+    "30*tol*kappa*||r0|| more only when the Arnoldi loop stopped before min(m, n) steps because the remainder fell below tol*||A q_0|| (the accuracy the caller's tol asks for)",
 ]
 
 
@@ -91,15 +92,50 @@ def findings():
     out.append(dict(flag="gmres_zero_residual_nan", present=present, witness="gmres(Dense([[2,1],[0,3]]), B=[[1,0],[2,0]], max_iters=2)", got=got,
                     expected="second column [0, 0] (x0 is already the solution of that column)",
                     what="a column whose initial residual is exactly zero (zero right-hand side with x0 = 0, or an exact initial guess) is returned as NaN: init_arnoldi divides the start vector by its norm 0"))
+    # the padded-column mask is relative to the caller's tol: 10 * tol * max|H|
+    Ad = np.diag([1000.0, 1.0, 2.0, 3.0])
+    bd = np.ones(4)
+    try:
+        rr = []
+        for mw in (2, 3, 4):
+            x, _ = gmres(Dense(Ad), bd, max_iters=mw, tol=1e-3)
+            rr.append(float(np.linalg.norm(bd - Ad @ np.asarray(x)) / 2.0))
+        present = bool(rr[1] > rr[0] * (1 + 1e-6) or rr[2] > 1e-6)
+        got = "relative residuals for max_iters=2,3,4: %s" % ", ".join("%.3g" % v for v in rr)
+    except Exception as e:  # noqa
+        present, got = True, "raised %s: %s" % (type(e).__name__, e)
+    out.append(dict(flag="gmres_mask_tol", present=present, witness="gmres(Dense(diag(1000,1,2,3)), b=[1,1,1,1], max_iters=3 and 4, tol=1e-3)", got=got,
+                    expected="0.327, 0.115, ~1e-12 (non-increasing, zero at max_iters = n)",
+                    what="gmres treats every column of H whose largest entry is <= 10*tol*max|H| as zero padding and forces its coefficient to 0 after the solve: with a "
+                         "spread spectrum and tol >= ~1e-4 genuine Arnoldi columns are dropped, the residual is not minimal, grows with max_iters (0.327 -> 0.431 -> 0.445 on the witness) and is not zero at max_iters = n"))
+    # the remainder is compared with the absolute tol/2 before normalisation
+    Ms = 1e-6 * np.array([[2.0, 1.0], [1.0, 3.0]])
+    try:
+        x, _ = gmres(Dense(Ms), np.ones(2), max_iters=2, tol=1e-6)
+        r = float(np.linalg.norm(np.ones(2) - Ms @ np.asarray(x)) / np.sqrt(2.0))
+        present = bool(not np.isfinite(r) or r > 1e-8)
+        got = "relative residual %.3g at max_iters = n = 2" % r
+    except Exception as e:  # noqa
+        present, got = True, "raised %s: %s" % (type(e).__name__, e)
+    out.append(dict(flag="arnoldi_absolute_clip", present=present, witness="gmres(Dense(1e-6*[[2,1],[1,3]]), b=[1,1], max_iters=2, tol=1e-6)", got=got,
+                    expected="relative residual ~1e-16 (as for the same matrix times 1e-3 or 1)",
+                    what="arnoldi_fact normalises the next basis vector only when the remainder norm exceeds the ABSOLUTE tol/2: for an operator of small overall scale "
+                         "(||A|| <~ tol) every remainder is below it, the basis stops after q_0 and gmres returns a residual of 0.14 instead of 1e-16 at max_iters = n"))
     return out
 
 
-def gen_system(rs, sid, nmax, kexp):
-    n = int(rs.integers(1, nmax + 1))
+def gen_system(rs, sid, nmax, kexp, spread=False, wide_scale=False):
+    n = int(rs.integers(6 if spread else 1, nmax + 1))
     cplx = bool(rs.random() < 0.4)
-    kind = G.KINDS[int(rs.integers(0, len(G.KINDS)))]
-    kappa = float(10 ** rs.uniform(0, kexp))
+    if spread:       # widely spread spectra: outliers 300-1000x the bulk, graded, clustered; condition number 3e2 .. 1e4
+        kind = G.SPREAD_KINDS[int(rs.integers(0, len(G.SPREAD_KINDS)))]
+        kappa = float(10 ** rs.uniform(2.5, 4))
+    else:
+        kind = G.KINDS[int(rs.integers(0, len(G.KINDS)))]
+        kappa = float(10 ** rs.uniform(0, kexp))
     A = G.make_matrix(rs, n, cplx, kind, kappa)
+    if wide_scale:       # operators of any overall scale (only once the absolute tol/2 clip of arnoldi_fact is repaired)
+        A = A * 10.0 ** rs.uniform(-8, 8)
     return dict(A=A, n=n, cplx=cplx, kind=kind, kappa=float(np.linalg.cond(A)), sys_id=sid)
 
 
@@ -179,53 +215,71 @@ def dump_case(c, o):
             pickle.dump((c, o), f)
 
 
+def gen_tol(rs):
+    """tolerances from 1e-12 to 1e-3, the two defaults (1e-7 of gmres(), 1e-6 of GMRES()) drawn often"""
+    u = rs.random()
+    return 1e-7 if u < 0.2 else (1e-6 if u < 0.35 else float(10 ** rs.uniform(-12, -3)))
+
+
 def run(ctx):
     fnd = findings()
     flags = {f["flag"]: bool(f["present"]) for f in fnd}
     sq = flags.get("gmres_square_H", False)
     zero_ok = not flags.get("gmres_zero_residual_nan", True)
+    wide = not flags.get("arnoldi_absolute_clip", True)
     rs = L.np_rng(ctx)
     nmax = ctx.budget(10, 16)
     cases, sid = [], 0
     for _ in range(ctx.budget(90, 600)):          # stream 1: random right-hand sides, m below / at / beyond n
-        s = gen_system(rs, sid, nmax, 1.5)
+        s = gen_system(rs, sid, nmax, 1.5, wide_scale=wide)
         sid += 1
         r = gen_rhs(rs, s, zero_ok=zero_ok)
         n = s["n"]
         ms = sorted(set([1, n, n + int(rs.integers(1, 5))] + [int(x) for x in rs.integers(1, n + 1, size=3)]))
-        tol = float(10 ** rs.uniform(-10, -4))
+        tol = gen_tol(rs)
         for m in ms:
             cases.append(dict(s, **r, m=m, tol=tol, stream="random_rhs"))
+    for _ in range(ctx.budget(60, 400)):          # stream 1b: widely spread spectra (condition number up to 1e4), m >= 5
+        s = gen_system(rs, sid, ctx.budget(14, 24), 0, spread=True, wide_scale=wide)
+        sid += 1
+        r = gen_rhs(rs, s, zero_ok=zero_ok)
+        n = s["n"]
+        ms = sorted(set([n, n + 2] + [int(x) for x in rs.integers(5, n + 1, size=3)]))
+        tol = gen_tol(rs)
+        for m in ms:
+            cases.append(dict(s, **r, m=m, tol=tol, stream="spread_spectrum"))
     for _ in range(ctx.budget(50, 350)):          # stream 2: eigenvector right-hand sides (early breakdown)
-        s = gen_system(rs, sid, nmax, 1.5)
+        s = gen_system(rs, sid, nmax, 1.5, wide_scale=wide)
         sid += 1
         r = gen_rhs(rs, s, eig=True, zero_ok=zero_ok)
         n = s["n"]
-        tol = float(10 ** rs.uniform(-10, -4))
+        tol = gen_tol(rs)
         for m in sorted(set([1, 2, 3, n, n + 2, int(rs.integers(1, n + 4))])):
             cases.append(dict(s, **r, m=m, tol=tol, stream="eigvec_rhs"))
     obs = [G.run_impl(c) for c in cases]
-    stab = [G.stability(c, square_H=sq) for c in cases]
+    stab = [G.stability(c, flags) for c in cases]
+    diags = [G.diagnostics(c, flags) for c in cases]
     # (max_iters > n stays in the comparison on a repaired tree too: the model with gmres_square_H cleared keeps the
     # (m+1) x m buffer and masks per column, which makes zero-padded columns inert)
-    def modelled(c):
-        if "zero column" in c["rhs"]:        # the model transcribes the pinned 0/0
-            return False
-        if any(G.overrun_columns(c)[0]):      # steps taken after a column's breakdown work on rounding noise: not comparable entry-wise
+    def modelled(c, dg):
+        # on the pinned tree the steps taken after a column's breakdown work on rounding noise divided by tol/2: not comparable
+        # entry-wise (on the repaired tree the column becomes exactly zero and the stability filter decides)
+        if flags.get("arnoldi_breakdown_continues") and any(dg["overrun"]):
             return False
         return True
-    good = [o.get("ok") and st["same_steps"] and st["dev_x"] <= 1e-12 and modelled(c) for c, o, st in zip(cases, obs, stab)]
+    good = [o.get("ok") and st["same_steps"] and st["dev_x"] <= 1e-12 and modelled(c, dg) for c, o, st, dg in zip(cases, obs, stab, diags)]
     stable = [i for i, st in enumerate(stab) if good[i] and st["min_margin"] >= 1e-5]
     near = [i for i, st in enumerate(stab) if good[i] and st["min_margin"] < 1e-5]
     items = [(cases[i], obs[i]) for i in stable]
     mism = []
-    failing, err = G.eval_in_coq("c13", items, sq)
+    failing, err = G.eval_in_coq("c13", items, flags)
     if err:
         mism.append(dict(oracle_fail=False, harness_error=err))
         failing = []
     failset = {stable[i] for i in failing}
     minres_checked = exhausted = attributed = early = 0
     ratio_worst = [0.0]
+    excess_worst = [0.0]
     for i, (c, o) in enumerate(zip(cases, obs)):
         bad, info = G.oracle(c, o, flags)
         minres_checked += info.get("minres_checked", 0)
@@ -233,6 +287,7 @@ def run(ctx):
         attributed += info.get("attributed_exception", 0)
         early += info.get("early_breakdown", 0)
         ratio_worst[0] = max(ratio_worst[0], info.get("ratio_worst", 0.0))
+        excess_worst[0] = max(excess_worst[0], info.get("excess_worst", 0.0))
         if bad or i in failset:
             mism.append(dict(oracle_fail=bool(bad), case=describe(c, o), failed_clauses=bad, model_disagrees=(i in failset)))
             dump_case(c, o)
@@ -243,10 +298,11 @@ def run(ctx):
         sid += 1
         n = int(rs.integers(20, ctx.budget(80, 150) + 1))
         cplx = s["cplx"]
-        A = G.make_matrix(rs, n, cplx, s["kind"], float(10 ** rs.uniform(0, 3)))
-        s = dict(s, A=A, n=n, kappa=float(np.linalg.cond(A)))
+        kindL = str(rs.choice(list(G.KINDS) + list(G.SPREAD_KINDS)))
+        A = G.make_matrix(rs, n, cplx, kindL, float(10 ** rs.uniform(0, 3.7)))
+        s = dict(s, A=A, n=n, kind=kindL, kappa=float(np.linalg.cond(A)))
         r = gen_rhs(rs, s, eig=bool(rs.random() < 0.3), zero_ok=zero_ok)
-        c = dict(s, **r, m=int(rs.choice([n, n + 5, int(rs.integers(1, n + 1))])), tol=float(10 ** rs.uniform(-10, -5)), stream="large")
+        c = dict(s, **r, m=int(rs.choice([n, n + 5, int(rs.integers(1, n + 1))])), tol=gen_tol(rs), stream="large")
         o = G.run_impl(c)
         bad, info = G.oracle(c, o, flags)
         minres_checked += info.get("minres_checked", 0)
@@ -271,7 +327,7 @@ def run(ctx):
             prev = None
             for c, o in lst:
                 # runs that go on after a column's breakdown belong to the recorded defect arnoldi_breakdown_continues
-                if flags.get("arnoldi_breakdown_continues") and any(G.overrun_columns(c)[0]):
+                if flags.get("arnoldi_breakdown_continues") and any(G.diagnostics(c, flags)["overrun"]):
                     continue
                 X0 = c["X0"] if c["X0"] is not None else np.zeros_like(c["B"])
                 res = np.linalg.norm(c["B"] - c["A"] @ o["x"], axis=0)
@@ -280,7 +336,12 @@ def run(ctx):
                 floor = 200 * 2.2e-16 * (np.linalg.norm(c["A"], 2) * np.linalg.norm(o["x"], axis=0) + np.linalg.norm(c["B"], axis=0))
                 if prev is not None:
                     mono += 1
-                    if np.any(res > prev * (1 + 1e-6) + (1e-6 + 30 * c["tol"] * c["kappa"]) * r0 + floor):
+                    dg = G.diagnostics(c, flags)
+                    if (flags.get("gmres_mask_tol") and any(dg["masked_genuine"])) or (flags.get("arnoldi_absolute_clip") and any(dg["abs_clip"])):
+                        prev = None
+                        continue
+                    early_stop = 0 <= dg["steps"] < min(c["m"], c["n"]) or any(dg["overrun"])
+                    if np.any(res > prev * (1 + 1e-6) + (1e-6 + 1e-13 * c["kappa"] ** 2 + (30 * c["tol"] * c["kappa"] if early_stop else 0)) * r0 + floor):
                         mism.append(dict(oracle_fail=True, case=describe(c, o), failed_clauses=["residual increases with max_iters: %s after %s" % (res.tolist(), prev.tolist())], model_disagrees=False))
                         dump_case(c, o)
                 prev = res
@@ -301,14 +362,15 @@ def run(ctx):
     return dict(
         evaluations=len(cases) + invpath, distinct_nontrivial=len(nontriv),
         rule="invertible systems of 6 kinds (shifted Gaussian, normal, non-normal with prescribed singular values, SPD, scaled unitary, triangular), real/complex, "
-             "n 1..%d in Coq (kappa <= 30) and 20..%d oracle-only (kappa <= 1e3), 1-3 columns with absolute scales 1e-14..1e8, random and eigenvector right-hand sides (grade 1-3), x0 none/zero/random/warm start accurate to 1e-12..1e-6, "
-             "max_iters from 1 to n+4, tol 1e-10..1e-4; non-trivial = n>=2 and at least one Arnoldi step; distinct by (system, max_iters)" % (nmax, ctx.budget(80, 150)),
+             "n 1..%d in Coq (kappa <= 30; plus spread spectra - outliers 300-1000x the bulk, graded, clustered - with kappa 3e2..1e4, n 6..14/24, m >= 5) and 20..%d oracle-only (kappa <= 5e3), 1-3 columns with absolute scales 1e-14..1e8, random and eigenvector right-hand sides (grade 1-3), x0 none/zero/random/warm start accurate to 1e-12..1e-6, "
+             "max_iters from 1 to n+4, tol 1e-12..1e-3 with the defaults 1e-7 / 1e-6 drawn often; non-trivial = n>=2 and at least one Arnoldi step; distinct by (system, max_iters)" % (nmax, ctx.budget(80, 150)),
         samples=[describe(c, o) for c, o in list(zip(cases, obs))[:3]], mismatches=mism, findings=fnd,
         extra=dict(compared_in_coq=len(items), near_tie=len(near), skipped_unstable=len(cases) - large - len(items) - len(near),
                    minres_clauses_checked=minres_checked, krylov_space_exhausted_columns=exhausted, large_oracle_only=large,
                    monotonicity_pairs=mono, inv_entry_point=invpath, impl_exceptions=sum(1 for o in obs if not o.get("ok")),
                    exceptions_attributed_to_flags=attributed, early_breakdown_cases=early,
-                   worst_final_over_initial_residual_where_checked=ratio_worst[0],
+                   worst_final_over_initial_residual_where_checked=ratio_worst[0], worst_excess_over_optimum_where_checked=excess_worst[0],
+                   tol_decades=hist(None, lambda c: int(np.floor(np.log10(c["tol"])))), kappa_decades=hist(None, lambda c: int(np.floor(np.log10(max(c["kappa"], 1))))),
                    rhs_scale_decades=hist(None, lambda c: int(np.floor(np.log10(max(float(np.max(np.abs(c["B"]))), 1e-300))))),
                    m_lt_n=sum(1 for c in cases if c["m"] < c["n"]), m_eq_n=sum(1 for c in cases if c["m"] == c["n"]), m_gt_n=sum(1 for c in cases if c["m"] > c["n"]),
                    kind_histogram=hist("kind"), rhs_histogram=hist("rhs"), x0_histogram=hist("x0kind"), columns_histogram=hist("nc"),
